@@ -2,6 +2,7 @@ import PfModel.DriverVal
 import PfModel.Model.MapPieces
 import PfModel.Model.MapPiecesSub
 import PfModel.Model.MapPiecesFlow
+import PfModel.Model.MapPiecesReduced
 import PfModel.Lemmas.MapTotal
 /-! Driver for C06: `pieces.run` (a sequence of `map(fixed_indices=…, cleanup=False)` on one folder), `learners.make`
     (`create_learners`), `learners.exec` (a sequence of `learner.function(x)` calls on the shared store), `sel.indices`
@@ -117,6 +118,19 @@ def handle (m : String) (a : Json) : R Json := do
                      ("accepted", jList jBool (fixed.map accepted)),
                      ("nodup", jBool (decide (akeys rF.store).Nodup)),
                      ("conforms", jBool (PF.C01.Conforms sub inputs internal))]
+  | "reduced.table" =>
+    -- round 4: `_reduced_axes(pipeline)` as a dictionary (rows without an axis are not created by pipefunc: dropped), next to
+    -- `Pipeline.mapspec_axes` and the axes some function maps over
+    let fs ← listF getMFunc a "funcs"
+    let inputs ← getKw (← fld a "inputs")
+    let S ← optF (asList asStr) a "output_names"
+    let auto := (← optF asBool a "auto").getD false
+    match Sub.prepare fs inputs S auto with
+    | .error e => return putMErr (subErr e)
+    | .ok sub =>
+      return jObj [("reduced", jList (jPair jStr (jList jStr)) ((reducedTable sub).filter fun r => !r.2.isEmpty)),
+                   ("axes", jList (jPair jStr (jList (jOpt jStr))) (mapspecAxes sub)),
+                   ("mapped", jList jStr (mappedAxes sub))]
   | "sel.indices" =>
     let d ← natF a "d"
     let s ← getSel (← fld a "sel")
